@@ -1,6 +1,6 @@
 /-
 Helper lemmas for C14, part 2: the group-by / hash-join of `MeanPhenotypicBreedingValue.estimate`
-(`Pheno.aggKeys`, `Pheno.agg`, `Pheno.lookupLast`, `Pheno.meanBV`).
+(`Pheno.aggKeys`, `Pheno.agg`, `Pheno.lookupLast`, `Pheno.meanBVPrerepair`).
 -/
 import Mathlib.Tactic
 import PybropsModel.Model.Pheno
